@@ -213,3 +213,39 @@ def model_check(wd, tier):
         if r["violation"] != want:
             raise C.ToolError(f"Session.tla: deviation {dev} is not refuted by {want} ({r['violation']}, {r['error']})")
     return m
+
+
+def selftest(wd):
+    """the binding is real: a recorded walk is accepted; with one recorded field corrupted it is rejected at that step."""
+    ops, plan = walk(random.Random(4242), 60)
+    res = C.run_mcv([{"id": "selftest", "ops": ops}], wd, name="sw_self")[0]["results"]
+    ev = project(ops, plan, res)
+    if not ev:
+        raise C.ToolError("session walk selftest: unusable recording")
+    strip = lambda evs: [{k: v for k, v in e.items() if k != "at"} for e in evs]
+    rej, drifts, _ = C.validate_trace("Trace_Session", "Trace_Session.cfg", strip(ev), wd, name="sw_self_ok")
+    if rej:
+        raise C.ToolError(f"session walk selftest: the unchanged recording is rejected: {rej[:3]}")
+    # (1) a position that names a node of no expression
+    i = next(j for j, e in enumerate(ev) if e["st"]["expr"] != "#none" and e["op"] != "environment")
+    bad = json.loads(json.dumps(ev))
+    bad[i]["st"]["pos"] = "M-of-another-expression-7"
+    rej1, _, _ = C.validate_trace("Trace_Session", "Trace_Session.cfg", strip(bad), wd, name="sw_self_pos")
+    # (2) a speech answer from a table loaded for another language
+    j = next((j for j, e in enumerate(ev) if e["op"] == "get_spoken_text" and e["res"] == "ok" and e["st"]["expr"] != "#none" and j > 0 and ev[j - 1]["st"]["expr"] != "#none"), None)
+    rej2 = [(0, "speech-from")]
+    if j is not None:
+        bad = json.loads(json.dumps(ev))
+        other = [p_ for p_ in bad[j]["st"]["file"]["speech"] if p_ != bad[j]["st"]["lang"]][0]
+        bad[j]["st"]["table"]["speech"]["for"] = other
+        rej2, _, _ = C.validate_trace("Trace_Session", "Trace_Session.cfg", strip(bad), wd, name="sw_self_tab")
+    # (3) a query that changes a preference
+    k = next((j for j, e in enumerate(ev) if e["op"] in ("get_braille", "get_spoken_text", "do_navigate_command") and j > 0), None)
+    bad = json.loads(json.dumps(ev))
+    bad[k]["st"]["highlight"] = "All" if bad[k]["st"]["highlight"] != "All" else "Off"
+    rej3, _, _ = C.validate_trace("Trace_Session", "Trace_Session.cfg", strip(bad), wd, name="sw_self_pref")
+    ok = (any(idx == i + 1 and "outside-the-expression" in r for idx, r in rej1) and any("table-that-is-not" in r or r == "speech-from" for _, r in rej2)
+          and any(idx == k + 1 and "query-changed" in r for idx, r in rej3))
+    if not ok:
+        raise C.ToolError(f"session walk selftest: corrupted recordings are not rejected where expected: {rej1[:2]} {rej2[:2]} {rej3[:2]}")
+    C.log("[session walk] selftest ok (unchanged recording accepted; three corrupted fields rejected at their step)")
